@@ -2,7 +2,8 @@
    (theorems only; proofs in Proofs/SafeProofs.v and Proofs/DemuxProofs.v). *)
 From Coq Require Import ZArith List Bool.
 Require Import Base.Bits Base.Iter Gen.Consts Gen.Types Model.Packet Model.Pool Model.Reader Model.Demux
-  Proofs.SafeProofs Proofs.DemuxProofs.
+  Model.Pes Model.Desc Model.Psi Model.DemuxFull
+  Proofs.SafeProofs Proofs.DemuxProofs Proofs.SafeUnits Proofs.SafeDesc Proofs.SafePsi.
 Import ListNotations.
 Open Scope Z_scope.
 
@@ -30,6 +31,47 @@ Print Assumptions C03_nomore_stable.
 Theorem C03_af_safe : safe parse_packet_adaptation_field (fun a => 0 <= PacketAdaptationField_Length a).
 Proof. exact safe_parse_af. Qed.
 Print Assumptions C03_af_safe.
+
+(* ---- the unit parsers: no panic on ANY byte string, and the only error is the generic one (in particular never the
+   models' "loop ran out of fuel" code: every loop of the models has enough fuel on every input) ---- *)
+
+(* parsePESData (data_pes.go) *)
+Theorem C03_pes_no_panic : forall bs, bytes_ok bs ->
+  match parse_pes_data_bytes bs with Panic => False | Err c => ok_code c | Ok _ => True end.
+Proof. exact parse_pes_data_no_panic. Qed.
+Print Assumptions C03_pes_no_panic.
+
+(* parseDescriptors and the 23 newDescriptor* parsers (descriptor.go), entered at any non-negative offset *)
+Theorem C03_descriptors_no_panic : forall bs, bytes_ok bs ->
+  match run_iter parse_descriptors bs with Panic => False | Err c => ok_code c | Ok _ => True end.
+Proof. exact parse_descriptors_no_panic. Qed.
+Print Assumptions C03_descriptors_no_panic.
+
+Theorem C03_descriptors_safe : safe parse_descriptors any.
+Proof. exact safe_parse_descriptors. Qed.
+Print Assumptions C03_descriptors_safe.
+
+(* parsePSIData with its sections, syntax headers, the CRC gate and the six table parsers (data_psi.go, data_pat.go,
+   data_pmt.go, data_sdt.go, data_nit.go, data_eit.go, data_tot.go) *)
+Theorem C03_psi_no_panic : forall bs, bytes_ok bs ->
+  match parse_psi_data_bytes bs with Panic => False | Err c => ok_code c | Ok _ => True end.
+Proof. exact parse_psi_data_no_panic. Qed.
+Print Assumptions C03_psi_no_panic.
+
+(* the hypotheses are met by, and the theorems say something about, e.g. a PES unit with an optional header whose
+   PES_header_data_length points past the end (error, not a panic), an ISO-639 descriptor (tag 10) of length 4, and a
+   PAT section with a wrong CRC_32 (error) *)
+Example C03_pes_example :
+  bytes_ok [0; 0; 1; 224; 0; 0; 128; 0; 200] /\ parse_pes_data_bytes [0; 0; 1; 224; 0; 0; 128; 0; 200] = Err E_generic.
+Proof. split; [repeat constructor; cbv; intuition discriminate|vm_compute; reflexivity]. Qed.
+Example C03_descriptors_example :
+  bytes_ok [240; 6; 10; 4; 101; 110; 103; 1] /\
+  exists ds, run_iter parse_descriptors [240; 6; 10; 4; 101; 110; 103; 1] = Ok ds /\ length ds = 1%nat.
+Proof. split; [repeat constructor; cbv; intuition discriminate|eexists; split; vm_compute; reflexivity]. Qed.
+Example C03_psi_example :
+  bytes_ok [0; 0; 176; 13; 0; 1; 193; 0; 0; 0; 1; 240; 0; 1; 2; 3; 4] /\
+  parse_psi_data_bytes [0; 0; 176; 13; 0; 1; 193; 0; 0; 0; 1; 240; 0; 1; 2; 3; 4] = Err E_generic.
+Proof. split; [repeat constructor; cbv; intuition discriminate|vm_compute; reflexivity]. Qed.
 
 (* NOT proved here (full statements kept): no panic in the unit parsers (PES, PSI tables, descriptors) and the bound on
    the number of calls.  Both are exercised on every run: every case runs under recover, a call cap of 3*len+8 turns
